@@ -266,7 +266,7 @@ func (w *world) b(sym string) []byte {
 	return b
 }
 
-func (w *world) id32(sym string) (id [32]byte) { copy(id[:], w.b(sym)); return }
+func (w *world) id32(sym string) (id [32]byte)  { copy(id[:], w.b(sym)); return }
 func (w *world) aux(sym string) (a channel.Aux) { copy(a[:], w.b(sym)); return }
 
 func fit(b []byte, l int) []byte {
